@@ -221,7 +221,8 @@ pub fn run_pin(args: &Args) -> (u64, u64) {
         let lo = 10u32.pow(digits - 1);
         pins.push(rng2.gen_range(lo..=hi));
     }
-    let seeds: Vec<u32> = vec![0, 1, 9, 10, 3628799, 3628800, 3628801, 7257600, u32::MAX, u32::MAX - 1, 4293870400, 2_147_483_647, 2_147_483_648];
+    let seeds: Vec<u32> = vec![0, 1, 9, 10, 3628799, 3628800, 3628801, 7257600, u32::MAX, u32::MAX - 1, 4293870400, 2_147_483_647, 2_147_483_648,
+        362_880, 725_760, 1_088_640, 40_320, 5_040, 720, 120, 24, 6, 2, 3_265_920, 3_991_680, 4_294_684_800];
     for (k, pin) in pins.iter().enumerate() {
         if k % 60 == 59 {
             tr.reset("pin");
